@@ -141,8 +141,110 @@ func c17(r *core.Run) {
 
 	r.Rule("G1", "token-start guard: every comparison of a pattern byte with '$', '*' or '>' has its wildcard edge under a token-start flag (tested before the comparison or immediately on its true edge) or applies to element 0 of a split token; exception Values, with the witness that its literal branch consumes a whole token in an inner loop", 12)
 	r.Rule("G4", "no position-blind wildcard search: library code never looks for '$', '*' or '>' with a strings/bytes search, split, count or replace function (which cannot know whether the hit is at the start of a token); prefix/suffix tests are anchored and allowed", 1)
+	r.Rule("G5", "a one-token wildcard never covers a full wildcard: in Pattern.Matches every loop that skips a token of the argument (for a '$tag' or '*' token of the pattern) is entered only after the argument's current byte was compared with '>' and found different; otherwise \"a.$id\" would be said to cover \"a.>\"", 1)
 	r.Rule("G2", "character class: Pattern.IsValid, IsValidRID and isValidPart reject the same range (below 33, above 126) and each treats '?' specially", 3)
 	r.Rule("G3", "single pass: tag replacement scans the original pattern once; the result of a replacement is never the receiver of another replacement", 2)
+
+	// ---- G5 --------------------------------------------------------------
+	if mf := methodNamed(p, "", "Pattern", "Matches"); mf != nil && len(mf.Params) == 2 {
+		arg := mf.Params[1]
+		isArgElem := func(v ssa.Value) bool {
+			switch x := v.(type) {
+			case *ssa.Index:
+				return x.X == ssa.Value(arg)
+			case *ssa.Lookup:
+				return x.X == ssa.Value(arg)
+			}
+			return false
+		}
+		nSkip := 0
+		for _, b := range mf.Blocks {
+			iff, ok := b.Instrs[len(b.Instrs)-1].(*ssa.If)
+			if !ok {
+				continue
+			}
+			bo, ok := iff.Cond.(*ssa.BinOp)
+			if !ok || (bo.Op != token.NEQ && bo.Op != token.EQL) || !isArgElem(bo.X) {
+				continue
+			}
+			if k, isC := core.ConstInt(bo.Y); !isC || k != '.' {
+				continue
+			}
+			// a skip loop: this test is re-evaluated (the block reaches itself)
+			if !reachesBlock(b, b) {
+				continue
+			}
+			nSkip++
+			guarded := false
+			for _, ed := range dominatingEdges(iff) {
+				cnd, succ := ed.Norm()
+				g, ok := cnd.(*ssa.BinOp)
+				if !ok || !isArgElem(g.X) {
+					continue
+				}
+				if k, isC := core.ConstInt(g.Y); !isC || k != '>' {
+					continue
+				}
+				if (g.Op == token.NEQ) == (succ == 0) {
+					guarded = true
+				}
+			}
+			r.Check(guarded, "G5", core.FuncName(mf), "token-skip-only-after-'>'-rejected", p.InstrPos(iff), "the argument's token is skipped only when it is not the full wildcard", "a '$tag' / '*' token of the pattern skips a token of the argument without first rejecting '>': Pattern(\"a.$id\").Matches(\"a.>\") is true although \"a.>\" has names (a.b.c) the first pattern does not match - covering disagrees with matching")
+		}
+		// the skip loop may live in a helper that is handed the argument
+		for _, c := range core.Calls(mf) {
+			cal := c.Common().StaticCallee()
+			if cal == nil || len(cal.Blocks) == 0 || cal.Pkg != mf.Pkg {
+				continue
+			}
+			ai := -1
+			for i, a := range c.Common().Args {
+				if a == ssa.Value(arg) {
+					ai = i
+				}
+			}
+			if ai < 0 || ai >= len(cal.Params) {
+				continue
+			}
+			hp := cal.Params[ai]
+			loops := false
+			for _, b := range cal.Blocks {
+				iff, ok := b.Instrs[len(b.Instrs)-1].(*ssa.If)
+				if !ok || !reachesBlock(b, b) {
+					continue
+				}
+				if bo, ok := iff.Cond.(*ssa.BinOp); ok {
+					if ix, ok := bo.X.(*ssa.Index); ok && ix.X == ssa.Value(hp) {
+						if k, isC := core.ConstInt(bo.Y); isC && k == '.' {
+							loops = true
+						}
+					}
+				}
+			}
+			if !loops {
+				continue
+			}
+			nSkip++
+			guarded := false
+			for _, ed := range dominatingEdges(c) {
+				cnd, succ := ed.Norm()
+				g, ok := cnd.(*ssa.BinOp)
+				if !ok || !isArgElem(g.X) {
+					continue
+				}
+				if k, isC := core.ConstInt(g.Y); !isC || k != '>' {
+					continue
+				}
+				if (g.Op == token.NEQ) == (succ == 0) {
+					guarded = true
+				}
+			}
+			r.Check(guarded, "G5", core.FuncName(mf), "token-skip-only-after-'>'-rejected", p.InstrPos(c), "the argument's token is skipped only when it is not the full wildcard", "a '$tag' / '*' token of the pattern skips a token of the argument (through "+core.FuncName(cal)+") without first rejecting '>'")
+		}
+		if nSkip == 0 {
+			r.Bad("G5", core.FuncName(mf), "has-token-skip-loop", p.Pos(mf.Pos()), "no loop skipping a token of the argument found in Matches (rule went vacuous)")
+		}
+	}
 
 	// ---- G4 --------------------------------------------------------------
 	{
